@@ -857,6 +857,9 @@ func main() {
 	w("def botRequestAI : List String := %s", leanList(stmtSrcs(findFunc(botR, "botRunner", "requestAI"))))
 	w("def adapterUpdate : List String := %s", leanList(stmtSrcs(findFunc(adapter, "tableEngineAdapter", "UpdateTableState"))))
 	w("")
+	w("/-- actor.UpdateTableState, statement by statement (deliveries to one actor are queued behind its mutex, none is dropped) -/")
+	w("def actorUpdate : List String := %s", leanList(stmtSrcs(findFunc(parseFile(filepath.Join(repo, "actor", "actor.go")), "actor", "UpdateTableState"))))
+	w("")
 	w("def shouldPauseBody : List String := %s", leanList(stmtSrcs(findFunc(tableF, "Table", "ShouldPause"))))
 	w("def isBreakingBody : List String := %s", leanList(stmtSrcs(findFunc(tableF, "TableBlindState", "IsBreaking"))))
 	w("def isSetBody : List String := %s", leanList(stmtSrcs(findFunc(tableF, "TableBlindState", "IsSet"))))
